@@ -18,7 +18,7 @@ EXCL = {}
 # Program-level finding ids by how they manifest.  Engines pick the groups that can
 # affect their oracle; a new finding added here reaches every engine at once.
 RAISES = ("KF-layout-drift-over-shuffle", "KF-minmax-empty", "KF-setitem-int-with-negstep")  # graph build / compute raises (minmax-empty also: wrong block shape)
-VALUES = ("KF-pad-wide", "KF-tensordot-int-dtype", "KF-argext-ties-axis-none")  # computes, but differs from NumPy
+VALUES = ("KF-pad-wide", "KF-tensordot-int-dtype", "KF-argext-ties-axis-none", "KF-layout-drift-over-window-reduction")  # computes (or raises), but differs from NumPy
 ALL = RAISES + VALUES
 
 
@@ -57,6 +57,35 @@ def _arg_ties(prog, vals):
             ext = v.min() if s["op"] == "argmin" else v.max()
             if int(np.sum(v == ext)) > 1:
                 return True
+    return False
+
+
+@excl("KF-layout-drift-over-window-reduction")
+def _frozen_layout_over_window_reduction(prog, vals):
+    """broadcast_to / reshape / ravel / sliding_window_view / repeat (nodes that fix chunk metadata at
+    construction) downstream of a reduction over a sliding_window_view (whose native kernel re-chunks)."""
+    L = len(prog["leaves"])
+    red_over_swv = set()
+    for k, s in enumerate(prog["stmts"]):
+        if s["op"] in ("sum", "prod", "min", "max", "any", "all", "mean", "var", "std"):
+            src = s["args"][0]
+            if src >= L and prog["stmts"][src - L]["op"] == "sliding_window_view":
+                red_over_swv.add(L + k)
+    if not red_over_swv:
+        return False
+
+    def depends(v, seen=None):
+        seen = seen or set()
+        if v in red_over_swv:
+            return True
+        if v < L or v in seen:
+            return False
+        seen.add(v)
+        return any(depends(a, seen) for a in prog["stmts"][v - L]["args"])
+
+    for k, s in enumerate(prog["stmts"]):
+        if s["op"] in ("broadcast_to", "reshape", "ravel", "sliding_window_view", "repeat") and any(depends(a) for a in s["args"]):
+            return True
     return False
 
 
